@@ -22,6 +22,7 @@ License: 3-clause BSD. (See the COPYRIGHT file)
 
 from __future__ import annotations
 
+import math
 import socket
 
 from typing import TYPE_CHECKING, ClassVar
@@ -31,6 +32,14 @@ if TYPE_CHECKING:
 
 from struct import pack
 from struct import unpack
+
+
+def _rate_text(rate: float) -> str:
+    # the peer chooses the four octets of the IEEE float: NaN and the infinities have no
+    # integer value, and '%d' raised ValueError / OverflowError while the route was printed
+    if math.isfinite(rate):
+        return '%d' % rate
+    return str(rate)
 
 from exabgp.protocol.ip import IPv4
 from exabgp.protocol.ip import IPv6
@@ -73,7 +82,7 @@ class TrafficRate(ExtendedCommunity):
         return value
 
     def __repr__(self) -> str:
-        return 'rate-limit:%d' % self.rate
+        return 'rate-limit:%s' % _rate_text(self.rate)
 
     @classmethod
     def unpack_attribute(cls, data: Buffer, negotiated: Negotiated | None = None) -> TrafficRate:
@@ -111,7 +120,7 @@ class TrafficRatePackets(ExtendedCommunity):
         return max(value, 0.0)
 
     def __repr__(self) -> str:
-        return 'rate-limit:%d:packets' % self.rate
+        return 'rate-limit:%s:packets' % _rate_text(self.rate)
 
     @classmethod
     def unpack_attribute(cls, data: Buffer, negotiated: Negotiated | None = None) -> TrafficRatePackets:
